@@ -29,8 +29,8 @@ func init() {
 		Quick: 100000, Thorough: 3000000,
 		Run:        runC16,
 		Rule:       "one run = one generated (type, value); evaluations = individual MarshalTo calls, one per destination length L in 0..Size(v)+16 and per buffer shape (cap==len, cap extends into the trailing canary): cut points are exhaustive per value, values are sampled. non-trivial = the value encodes to at least 2 bytes (so that at least one cut lands inside its output); distinct = distinct hash of (type, Marshal(v) bytes)",
-		FaultKinds: []string{"destination-shorter-than-size", "destination-exact", "destination-longer", "cap-extends-past-len", "cut-inside-varint-or-tag", "cut-inside-bytes-or-string", "cut-inside-embedded-message", "cut-inside-repeated", "cut-inside-map-entry", "cut-inside-custom-message", "cut-inside-fixed"},
-		ProbeNames: []string{"values", "values-with-multi-entry-maps(compared canonically)", "values-map-free(compared bytewise)", "size==0", "size>=128(two-byte length prefixes)", "size>=1KiB", "custom-or-Message-types", "unencodable-skipped"},
+		FaultKinds: []string{"destination-shorter-than-size", "destination-exact", "destination-longer", "cap-extends-past-len", "value-after-other-values-of-the-same-type", "cut-inside-varint-or-tag", "cut-inside-bytes-or-string", "cut-inside-embedded-message", "cut-inside-repeated", "cut-inside-map-entry", "cut-inside-custom-message", "cut-inside-fixed"},
+		ProbeNames: []string{"values", "values-with-multi-entry-maps(compared canonically)", "values-map-free(compared bytewise)", "size==0", "size>=128(two-byte length prefixes)", "size>=1KiB", "custom-or-Message-types", "unencodable-skipped", "well-formedness-checked(reference parser)"},
 		Real:       []string{"proto.MarshalTo, proto.Size, proto.Marshal, proto.Unmarshal compiled from /repo's working tree (uninstrumented)"},
 		Model:      []string{"destination buffer (simio.GuardedBuf: prefill pattern, canaries on both sides)", "well-behaved user Message / gogo-style custom message implementations"},
 		Assumptions: []string{
@@ -113,6 +113,9 @@ type c16Scenario struct {
 	Sparse bool   `json:"sparse,omitempty"`
 	NoMaps bool   `json:"no_maps,omitempty"`
 	Value  []byte `json:"value"`
+	// Before lists the encodings of the values of the same type that went
+	// through the codec earlier in the run.
+	Before [][]byte `json:"before,omitempty"`
 }
 
 func protoTypeOfScenario(name string, shape int, sparse, noMaps bool) *simType {
@@ -129,41 +132,84 @@ func protoTypeOfScenario(name string, shape int, sparse, noMaps bool) *simType {
 }
 
 func runC16(r *core.Run) {
+	resetLibrary()
 	t := r.T
 	var ty *simType
-	var v reflect.Value
 	sc := &c16Scenario{}
+	var vals []reflect.Value
 	if r.Scenario != nil {
 		if err := stdjson.Unmarshal(r.Scenario, sc); err != nil {
 			core.Harness("C16 scenario: %v", err)
 		}
 		ty = protoTypeOfScenario(sc.Type, sc.Shape, sc.Sparse, sc.NoMaps)
-		v = reflect.New(ty.rt)
-		if err := proto.Unmarshal(sc.Value, v.Interface()); err != nil {
-			core.Harness("C16 scenario value does not decode: %v", err)
+		for _, enc := range append(append([][]byte(nil), sc.Before...), sc.Value) {
+			v := reflect.New(ty.rt)
+			if err := proto.Unmarshal(enc, v.Interface()); err != nil {
+				core.Harness("C16 scenario value does not decode: %v", err)
+			}
+			vals = append(vals, v)
 		}
 	} else {
 		ty = c16Type(r)
-		vg := &gen.Values{T: t, C: gen.Proto, MaxMap: 3, MaxLen: 4}
-		switch t.Pick(5, 2, 1) {
-		case 1:
-			vg.MaxLen = 12
-		case 2:
-			vg.MaxLen = 60
-		}
-		v = vg.New(ty.rt)
-	}
-	defer func() {
-		if r.V != nil && r.Scenario == nil {
-			var shape int
-			var sp, nm bool
-			if n, _ := fmt.Sscanf(ty.name, "proto-shape-%d/%t/%t", &shape, &sp, &nm); n == 3 {
-				r.ScenarioOut = &c16Scenario{Shape: shape, Sparse: sp, NoMaps: nm, Value: sc.Value}
-			} else {
-				r.ScenarioOut = &c16Scenario{Type: ty.name, Value: sc.Value}
+		// an order of operations: several values of one type go through the same
+		// codec one after the other (state kept in a codec must not leak)
+		n := t.Pick(5, 3, 2) + 1
+		for i := 0; i < n; i++ {
+			vg := &gen.Values{T: t, C: gen.Proto, MaxMap: 3, MaxLen: 4}
+			switch t.Pick(5, 2, 1) {
+			case 1:
+				vg.MaxLen = 12
+			case 2:
+				vg.MaxLen = 60
 			}
+			if i > 0 && t.Chance(1, 3) {
+				vals = append(vals, reflect.New(ty.rt)) // the zero value: empty maps, nil pointers
+				continue
+			}
+			vals = append(vals, vg.New(ty.rt))
 		}
-	}()
+	}
+	var encs [][]byte
+	for i, v := range vals {
+		want, ok := c16CheckValue(r, ty, v, i == 0)
+		if r.V != nil {
+			if r.Scenario == nil {
+				out := &c16Scenario{Before: encs, Value: want}
+				var shape int
+				var sp, nm bool
+				if n, _ := fmt.Sscanf(ty.name, "proto-shape-%d/%t/%t", &shape, &sp, &nm); n == 3 {
+					out.Shape, out.Sparse, out.NoMaps = shape, sp, nm
+				} else {
+					out.Type = ty.name
+				}
+				r.ScenarioOut = out
+			}
+			return
+		}
+		if !ok {
+			return
+		}
+		encs = append(encs, want)
+		if i > 0 {
+			r.Fault("value-after-other-values-of-the-same-type")
+		}
+	}
+	if v := poolViolation(); v != "" {
+		r.Fail("pool-monitor", firstWordOf(v), "%s", v)
+	}
+	r.Steps += r.Evaluations
+}
+
+func firstWordOf(s string) string {
+	if i := strings.IndexAny(s, ": "); i > 0 {
+		return s[:i]
+	}
+	return s
+}
+
+// c16CheckValue enumerates every destination length for one value; it returns
+// Marshal(v) and false when the value is skipped.
+func c16CheckValue(r *core.Run, ty *simType, v reflect.Value, first bool) ([]byte, bool) {
 	hasMap := strings.Contains(ty.flags, "mapfield")
 	if hasMap && v.Elem().Kind() == reflect.Struct {
 		// does the value actually hold a multi-entry map? bytes are comparable
@@ -176,9 +222,8 @@ func runC16(r *core.Run) {
 	if err != nil {
 		// the generator produced a value this codec refuses: not C16's business
 		r.Probe("unencodable-skipped")
-		return
+		return nil, false
 	}
-	sc.Value = want
 	size := proto.Size(arg)
 	r.Probe("values")
 	r.SigAdd(ty.name)
@@ -192,7 +237,7 @@ func runC16(r *core.Run) {
 	}
 	if size > maxSize {
 		r.Probe("unencodable-skipped")
-		return
+		return nil, false
 	}
 	if size == 0 {
 		r.Probe("size==0")
@@ -217,13 +262,25 @@ func runC16(r *core.Run) {
 			r.Fault(k)
 		}
 	}
-	if r.WantSample {
+	if r.WantSample && first {
 		r.Sample = map[string]any{"type": clipStr(ty.name+" "+ty.rt.String(), 400), "size": size, "marshal_hex": fmt.Sprintf("%x", clip(want, 64)), "destination_lengths_tried": fmt.Sprintf("0..%d, two buffer shapes each", size+16)}
 	}
 	if len(want) != size {
 		// C03's territory (Size == len(Marshal)); C16 needs it as a precondition
 		r.Fail("precondition", "size-ne-len-marshal", "Size(v)=%d but len(Marshal(v))=%d for %s", size, len(want), ty.name)
-		return
+		return want, true
+	}
+
+	// "a valid encoding of v": independent of Marshal, the bytes must be a
+	// well-formed message down to every embedded message the type declares
+	// (checked once per value on Marshal's output, which the per-length loop
+	// below compares MarshalTo's output with)
+	if ty.rt.Kind() == reflect.Struct && !protoOpaque(ty.rt) {
+		if _, ok := ref.ParseTree(want, ref.SchemaOf(ty.rt, protoOpaque), 0); !ok {
+			r.Fail("wrong-bytes", "encoding-not-well-formed", "the %d bytes that Marshal / MarshalTo produce for this value of %s are not a well-formed protobuf message: %x", len(want), ty.name, clip(want, 120))
+			return want, true
+		}
+		r.Probe("well-formedness-checked(reference parser)")
 	}
 
 	const prefill, canary = 0x5A, 0xC3
@@ -240,22 +297,22 @@ func runC16(r *core.Run) {
 			where := fmt.Sprintf("MarshalTo(len=%d cap=%d) of %s (Size=%d)", L, cap(dest), ty.name, size)
 			if pan != "" {
 				r.Fail("panic", "marshalto-panic:"+panicSite(pan), "%s panicked: %s", where, pan)
-				return
+				return want, true
 			}
 			if off, ok := g.CanariesIntact(); !ok {
 				r.Fail("out-of-bounds-write", "wrote-beyond-len", "%s wrote at offset %d, at or beyond len(b)=%d (guard byte damaged)", where, off, L)
-				return
+				return want, true
 			}
 			switch {
 			case L < size:
 				r.Fault("destination-shorter-than-size")
 				if err == nil {
 					r.Fail("short-buffer-accepted", "short-buffer-no-error", "%s returned n=%d and no error although the destination is shorter than Size(v)", where, n)
-					return
+					return want, true
 				}
 				if !errors.Is(err, io.ErrShortBuffer) {
 					r.Fail("short-buffer-error-kind", "short-buffer-wrong-error", "%s returned %q, which is not io.ErrShortBuffer", where, err)
-					return
+					return want, true
 				}
 			default:
 				if L == size {
@@ -265,30 +322,34 @@ func runC16(r *core.Run) {
 				}
 				if err != nil {
 					r.Fail("sufficient-buffer-rejected", "error-with-enough-space", "%s failed with %v although len(b) >= Size(v)", where, err)
-					return
+					return want, true
 				}
 				if n != size {
 					r.Fail("wrong-count", "count-ne-size", "%s reported %d bytes, Size(v) is %d", where, n, size)
-					return
+					return want, true
 				}
 				got := g.Body()[:n]
 				if !hasMap {
 					if !bytes.Equal(got, want) {
 						r.Fail("wrong-bytes", "bytes-ne-marshal", "%s wrote %x, Marshal(v) is %x", where, clip(got, 80), clip(want, 80))
-						return
+						return want, true
 					}
 				} else {
 					// encodings of one value may differ in map iteration order only:
 					// compare canonical forms computed by the reference parser
+					if _, ok := ref.ParseMessage(got); !ok {
+						r.Fail("wrong-bytes", "encoding-not-well-formed", "%s wrote bytes that are not a well-formed protobuf message: %x", where, clip(got, 120))
+						return want, true
+					}
 					if !bytes.Equal(ref.Canonical(got, 0), ref.Canonical(want, 0)) {
 						r.Fail("wrong-bytes", "canonical-ne-marshal", "%s wrote %x, which is not Marshal(v) = %x up to the order of map entries", where, clip(got, 80), clip(want, 80))
-						return
+						return want, true
 					}
 				}
 			}
 		}
 	}
-	r.Steps += r.Evaluations
+	return want, true
 }
 
 func multiEntryMap(v reflect.Value, d int) bool {
